@@ -12,6 +12,8 @@ Line protocol (one output line per input line):
   sim finalize | view | summary | tojson | shrink | saveload
   vtp <n_agents> <total_pop or none> <pop_scale or none>
   how <key>
+  pop <n0> <step>|<step>|…          step = <born>;<req positions or ->;<late positions or ->   (flows: created / removed agents)
+  rate <units> <new list> <alive list> <inds list or ->      (cmr / cbr as computed in finalize)
 -/
 
 def showErr : Err → String
@@ -62,8 +64,29 @@ def applyOp (s : Sim) (op : Op) (okText : Sim → String) : Sim × String :=
   | .ok s' => (s', "ok " ++ okText s')
   | .error e => (s, showErr e)
 
+def parsePopStep (tok : String) : Option PopStep :=
+  match tok.splitOn ";" with
+  | [b, r, l] => do some ⟨← b.toNat?, ← parseNatList? r, ← parseNatList? l⟩
+  | _ => none
+
+def bits (l : List Person) : String := String.ofList (l.map (fun p => if p.alive then '1' else '0'))
+
 def stepLine (s : Sim) (line : String) : Sim × String :=
   match words line with
+  | ["pop", n0, steps] =>
+      match n0.toNat?, (splitSteps steps).mapM parsePopStep with
+      | some n0, some sts =>
+          let (snaps, act) := popRun (List.replicate n0 fresh) sts
+          let f (g : List Person → Nat) := ",".intercalate (snaps.map (fun sn => toString (g sn)))
+          let nd := ",".intercalate (snaps.zipIdx.map (fun (sn, i) => toString (newDeathsOf i sn)))
+          (s, s!"ok nalive={f nAliveOf} removed={f removedOf} newdeaths={nd} final={act.length} alive={"|".intercalate (snaps.map bits)}")
+      | _, _ => (s, "bad-op")
+  | ["rate", units, new, alive, inds] =>
+      match parseRat? units, parseRatList? new, parseRatList? alive, parseNatList? inds with
+      | some u, some new, some alive, some inds =>
+          let al := if inds.isEmpty then alive else inds.map (fun i => alive.getD i 0)
+          (s, "ok " ++ showList (fun o => match o with | some r => showRat r | none => "u") (rateSeries u new al))
+      | _, _, _, _ => (s, "bad-op")
   | ["people", off, npts, steps] =>
       match parseOff off "People" "cum_deaths", npts.toNat?, (splitSteps steps).mapM (parseStep parsePerson) with
       | some off, some npts, some snaps =>
@@ -103,6 +126,13 @@ def stepLine (s : Sim) (line : String) : Sim × String :=
   | ["sim", "view"] => applyOp s .toDf showView
   | ["sim", "rawview"] => (s, "ok " ++ showView s)
   | ["sim", "summary"] => applyOp s .summarize showSummary
+  | ["sim", "rate", key, newKey, aliveKey, units, inds] =>
+      match parseRat? units, parseNatList? inds with
+      | some u, some inds =>
+          match rateOf s.store ⟨key, newKey, aliveKey, u, inds⟩ with
+          | some l => (s, "ok " ++ showList (fun o => match o with | some r => showRat r | none => "u") l)
+          | none => (s, "E:Key")
+      | _, _ => (s, "bad-op")
   | ["sim", "tojson"] => applyOp s .toJson (fun s' => if s'.ready then showSummary s' else "unavailable")
   | ["sim", "shrink"] => applyOp s .shrink showView
   | ["sim", "saveload"] => applyOp s .saveLoad showView
